@@ -1316,3 +1316,20 @@ Section Cycles.
       rewrite Hd, Hp. reflexivity.
   Qed.
 End Cycles.
+
+(* the executable premise used by the correspondence judge is the premise of the theorems *)
+Lemma nodupb_NoDup l : nodupb l = true <-> NoDup l.
+Proof.
+  induction l as [|x t IH]; simpl.
+  - split; [constructor | reflexivity].
+  - rewrite andb_true_iff, negb_true_iff, IH. split.
+    + intros [H1 H2]. constructor; [|assumption]. intros Hin.
+      assert (existsb (str_eqb x) t = true); [|congruence].
+      apply existsb_exists. exists x. split; [assumption | apply str_eqb_refl].
+    + intros H. inversion H as [|? ? Hn Hd]; subst. split; [|assumption].
+      destruct (existsb (str_eqb x) t) eqn:E; [|reflexivity].
+      apply existsb_exists in E. destruct E as [y [Hy He]]. apply str_eqb_eq in He. subst. contradiction.
+Qed.
+
+Lemma unique_keysb_spec ds : unique_keysb ds = true <-> unique_keys ds.
+Proof. unfold unique_keysb, unique_keys. now rewrite andb_true_iff, !nodupb_NoDup. Qed.
